@@ -1617,6 +1617,10 @@ dt_dtadd(struct dt_dt_s d, struct dt_dtdur_s dur)
 				dur.d.durtyp = DT_DURD;
 				dur.d.dv = carry;
 				goto dadd;
+			} else if (carry) {
+				/* a time has nowhere to put whole days
+				 * but the carry slot, range [-7,7] */
+				d.t.carry = carry > 7 ? 7 : carry < -7 ? -7 : carry;
 			}
 		}
 		break;
